@@ -167,6 +167,46 @@ func H_C12_child() {
 	if err != nil || ch == nil {
 		return
 	}
+	// operations on the parent between obtaining the handle and using it: the handle stays a live view
+	switch verif.Choice("between", 5) {
+	case 1: // settings merged into the very object the handle refers to
+		add := nDict().set("y", nUint(2))
+		b := nDict().set(name, add)
+		if idx >= 0 {
+			// (the elements in front are containers-or-nil placeholders: a nil leaves a container in place
+			// and replaces a primitive, exactly as the reference merge says)
+			l := nList()
+			for i := 0; i < idx; i++ {
+				l.List = append(l.List, nNil())
+			}
+			l.List = append(l.List, add)
+			b = nDict().set(name, l)
+		}
+		verif.Assert(c.Merge(b.toGo()) == nil, "C12/merge into the child's object accepted")
+		model = mergeVal(constPol(polDefault), nil, model, b)
+		n, _ = modelGet(model, parseAddr(name, idx, false))
+		verif.Reach("merged under a live handle")
+	case 2: // an unrelated merge
+		verif.Assert(c.Merge(map[string]interface{}{"unrelated": 1}) == nil, "C12/unrelated merge accepted")
+		model.set("unrelated", nUint(1))
+	case 3: // elements prepended / appended to the list the handle's object is an element of
+		if idx < 0 {
+			return
+		}
+		pol := []int{polPrepend, polAppend}[verif.Choice("between.pol", 2)]
+		b := nDict().set(name, nList(nUint(9)))
+		verif.Assert(c.Merge(b.toGo(), polOpts(pol)...) == nil, "C12/list merge accepted")
+		model = mergeVal(constPol(pol), nil, model, b)
+		// (n is still the model node of the handle's object: mergeVal clones, so look it up again)
+		at := idx
+		if pol == polPrepend {
+			at = idx + 1
+		}
+		n, _ = modelGet(model, parseAddr(name, at, false))
+	case 4: // a write next to the child
+		verif.Assert(c.SetUint("other", -1, 1) == nil, "C12/sibling write accepted")
+		model.set("other", nUint(1))
+	}
 	u := verif.Uint64("u")
 	verif.Assert(ch.SetUint("z", -1, u) == nil, "C12/write through child accepted")
 	n.set("z", nUint(u))
